@@ -33,7 +33,7 @@ ASSUMPTIONS = [
 REAL_VS_STUB = "real: mici transitions, integrators, solvers, systems, matrices; stub: user model functions misbehave on command (Hooked wrappers)"
 WALL_CAP_S = {"quick": 400, "thorough": 3300}
 MIN_EVALUATIONS = {"quick": 500, "thorough": 5000}
-N = {"quick": 40, "thorough": 1200}
+N = {"quick": 40, "thorough": 900}
 MAX_FAULTS_PER_SCENARIO = {"quick": 140, "thorough": 400}
 
 
@@ -43,8 +43,14 @@ def scenarios(tier, seed):
     for i in range(N[tier]):
         rng = rng_for(seed, PROP, i)
         kind = kinds_cycle[i % len(kinds_cycle)] if rng.random() < 0.8 else rng.choice(kinds_cycle)
+        stress = i % 8 == 7  # constrained stress family: curved manifolds, several inner steps, large steps - here the
+        if stress:           # "fails its reversibility check" failures happen without any injected fault
+            kind = rng.choice(["con", "gcon"])
         spec = zoo.random_system_spec(rng, kinds=(kind,), dims=(2, 3))
         ispec = zoo.random_integrator_spec(rng, spec["kind"], step_size=rng.choice([0.1, 0.3, 0.6]), allow_implicit_for_tractable=rng.random() < 0.3)
+        if stress:
+            ispec["n_inner_step"] = rng.choice([2, 3, 4])
+            ispec["step_size"] = rng.choice([0.7, 1.0, 1.5])
         if ispec["type"] in ("implicit_leapfrog", "implicit_midpoint") and rng.random() < 0.4:
             ispec["solver_kwargs"] = {"max_iters": rng.choice([2, 5, 20])}
         if ispec["type"] == "constrained" and rng.random() < 0.4:
